@@ -227,5 +227,6 @@ def run(check):
     total = int((600 if check.thorough else 96) * check.scale)
     cases = [gen_case(rng) for _ in range(total)]
     nj = check.jobs
-    jobs = [{'cases': cases[i::nj]} for i in range(nj) if cases[i::nj]]
+    # one hash seed per job: the order in which the scraper hands over the links of a page varies with it
+    jobs = [{'cases': [dict(c, hashseed=i) for c in cases[i::nj]], '_env': {'PYTHONHASHSEED': i}} for i in range(nj) if cases[i::nj]]
     return par.run_jobs('checks.c02b_crawl:worker', jobs, check.jobs, timeout=3600 if check.thorough else 600)
